@@ -6,6 +6,9 @@ package encoder
 
 //@ func EncodeToString(data) (s)
 //@   pure
+//@   ensures [b64] s == b64(string(data))
 //
 //@ func DecodeString(encodedContent) (ret, err)
 //@   pure
+//@   ensures [iff] (err == nil) == b64ok(encodedContent)
+//@   ensures [value] err == nil ==> string(ret) == unb64(encodedContent)
